@@ -153,7 +153,8 @@ def judge(res):
 
 
 def points(thorough):
-    envs = [UNSET] + [n for n, _ in REGISTRY] + ["bogus", ""]
+    # unknown names include near misses of known ones (substring, prefix, case, surrounding blanks)
+    envs = [UNSET] + [n for n, _ in REGISTRY] + ["bogus", "", "js", "no", "zkif", "SNARKJS", " snarkjs", "libsnark ", "backend"]
     mods = [m for _, m in REGISTRY]
     pres = [()] + [(m,) for m in mods]
     pairs = [("pysnark.nobackend", "pysnark.snarkjsbackend"), ("pysnark.snarkjsbackend", "pysnark.zkinterface.backend"),
@@ -167,6 +168,8 @@ def points(thorough):
             for deps in depss:
                 if not thorough and len(pre) == 2 and sum(1 for x in deps if not x) > 1:
                     continue        # quick: pairs of pre-imports with at most one missing dependency
+                if env in ("js", "no", "zkif", "SNARKJS", " snarkjs", "libsnark ", "backend") and (pre or (not thorough and sum(1 for x in deps if not x) > 1)):
+                    continue        # near-miss names matter when nothing is pre-imported
                 pts.append((env, pre, deps, False))
     return pts
 
@@ -190,7 +193,7 @@ def run(ctx):
     ctx.cov["distinct_outcomes"] = len(outcomes)
     ctx.cov["traces_validated_against_impl"] = len(results)
     ctx.cov["exhaustive"] = True
-    ctx.cov["rule"] = ("configuration = PYSNARK_BACKEND in {unset, 8 registry names, 'bogus', ''} x pre-imported modules in "
+    ctx.cov["rule"] = ("configuration = PYSNARK_BACKEND in {unset, 8 registry names, 'bogus', '', and 7 near misses of known names (substring, case, blanks)} x pre-imported modules in "
                        "{none, each registry module, 4 pairs in both import orders} x {FlatBuffers, qaptools executables, libsnark "
                        "extension} each available or not (quick: at most one missing); one fresh interpreter each; states = "
                        "distinct (backend_name, module, exit status)")
